@@ -22,6 +22,23 @@ pub struct Payload {
     id: u32,
     magic: u64,
     stamp: AtomicU64,
+    /// a handle to another object held by this one: destroying this object
+    /// drops it, wherever the destruction happens (also inside a merge)
+    child: Mutex<Option<H>>,
+    /// the child slot is in use by a simulated thread (which may be parked at a
+    /// scheduling point while it clones the child); others wait for it under
+    /// the scheduler instead of blocking on the real mutex
+    child_busy: std::sync::atomic::AtomicBool,
+}
+
+impl Payload {
+    fn with_child<R>(&self, f: impl FnOnce(&mut Option<H>) -> R) -> R {
+        sched::wait_until(sites::H_INBOX, &mut || !self.child_busy.load(Ordering::SeqCst));
+        self.child_busy.store(true, Ordering::SeqCst);
+        let r = f(&mut self.child.lock().unwrap());
+        self.child_busy.store(false, Ordering::SeqCst);
+        r
+    }
 }
 
 impl Drop for Payload {
@@ -30,6 +47,24 @@ impl Drop for Payload {
         let ok = self.magic == MAGIC | id as u64;
         self.magic = DEAD;
         model(|m| m.payload_dropped(id, ok));
+        let child = match self.child.get_mut() {
+            Ok(c) => c.take(),
+            Err(p) => p.into_inner().take(),
+        };
+        model(|m| {
+            m.nested.remove(&id);
+        });
+        if let Some(c) = child {
+            let cid = c.id;
+            report::probe("nested-handle-dropped-by-destructor");
+            model(|m| m.change(cid, -1));
+            drop(c);
+            let (n, t) = (now(), me());
+            model(|m| {
+                m.objs[cid as usize].last_drop_end_step = n;
+                m.objs[cid as usize].last_dropper = t;
+            });
+        }
     }
 }
 
@@ -38,10 +73,22 @@ impl Clone for Payload {
         // only reached through make_mut on a shared value
         let stamp = self.stamp.load(Ordering::Relaxed);
         let new_id = model(|m| m.cloned_for_make_mut(self.id, stamp));
+        let child = self.with_child(|slot| {
+            slot.as_ref().map(|c| {
+                let cid = c.id;
+                model(|m| {
+                    m.change(cid, 1);
+                    m.nested.insert(new_id, cid);
+                });
+                c.clone()
+            })
+        });
         Payload {
             id: new_id,
             magic: MAGIC | new_id as u64,
             stamp: AtomicU64::new(stamp),
+            child: Mutex::new(child),
+            child_busy: std::sync::atomic::AtomicBool::new(false),
         }
     }
 }
@@ -68,6 +115,7 @@ struct Model {
     quarantine: BTreeSet<usize>,
     touched: BTreeMap<usize, BTreeSet<usize>>, // addr -> tids
     next_stamp: u64,
+    nested: BTreeMap<u32, u32>, // object -> the object whose handle its payload holds
 }
 
 static MODEL: Mutex<Option<Model>> = Mutex::new(None);
@@ -89,6 +137,20 @@ fn now() -> u64 {
 }
 
 impl Model {
+    fn reaches(&self, from: u32, to: u32) -> bool {
+        let mut cur = from;
+        for _ in 0..64 {
+            if cur == to {
+                return true;
+            }
+            match self.nested.get(&cur) {
+                Some(&n) => cur = n,
+                None => return false,
+            }
+        }
+        true
+    }
+
     fn change(&mut self, obj: u32, delta: i64) {
         let o = &mut self.objs[obj as usize];
         o.count += delta;
@@ -148,15 +210,22 @@ fn drop_violation(sig: &str, detail: String) -> ! {
 // lock while holding the token), so map operations wait for a running merge.
 
 static MERGING: std::sync::atomic::AtomicBool = std::sync::atomic::AtomicBool::new(false);
+static MERGE_OWNER: std::sync::atomic::AtomicUsize = std::sync::atomic::AtomicUsize::new(usize::MAX);
 
 fn wait_no_merge() {
+    if MERGE_OWNER.load(Ordering::SeqCst) == me() {
+        // a destructor run by this thread's own merge came back to the queue
+        return;
+    }
     sched::wait_until(sites::H_INBOX, &mut || !MERGING.load(Ordering::SeqCst));
 }
 
 fn locked_merge() -> usize {
     wait_no_merge();
     MERGING.store(true, Ordering::SeqCst);
+    MERGE_OWNER.store(me(), Ordering::SeqCst);
     let n = steel_rc::QueueHandle::run_explicit_merge();
+    MERGE_OWNER.store(usize::MAX, Ordering::SeqCst);
     MERGING.store(false, Ordering::SeqCst);
     n
 }
@@ -190,6 +259,17 @@ fn hook_access(site: u32, addr: usize) {
     sched::yield_point_ex(site, 0, true);
     if site == s::ENQUEUE_TID {
         wait_no_merge();
+        // every other thread is outside the map now: a lock that is taken is
+        // held by this very thread (its merge is running a destructor)
+        if steel_rc::verif::enqueue_would_block(addr) {
+            report::violation(
+                "C05/merge-blocked-forever/enqueue-inside-explicit-merge",
+                format!(
+                    "t{}: a destructor run by run_explicit_merge dropped a reference owned by another thread; enqueue needs the queue-map lock that the merge itself is holding: the thread blocks forever and what it had queued is never destroyed",
+                    t
+                ),
+            );
+        }
     }
 }
 
@@ -228,7 +308,7 @@ static HOOKS: steel_rc::verif::Hooks = steel_rc::verif::Hooks {
 
 const OPS: &[&str] = &[
     "new", "clone", "drop", "send", "sendclone", "recv", "read", "getmut", "makemut", "unwrap",
-    "count", "merge",
+    "count", "merge", "nest",
 ];
 
 fn gen_workload(rng: &mut Rng) -> Value {
@@ -241,7 +321,7 @@ fn gen_workload(rng: &mut Rng) -> Value {
     weights[2] += 1; // drop
     weights[3] += 1; // send
     let wsum: u64 = weights.iter().sum();
-    let max_objs = rng.range(1, 2);
+    let max_objs = rng.range(1, 3);
     let mut threads = Vec::new();
     for t in 0..total {
         let n = rng.range(4, 12);
@@ -295,6 +375,8 @@ fn new_obj(held: &mut Vec<H>) {
         id,
         magic: MAGIC | id as u64,
         stamp: AtomicU64::new(stamp),
+        child: Mutex::new(None),
+        child_busy: std::sync::atomic::AtomicBool::new(false),
     });
     let addr = steel_rc::verif::box_addr(&h);
     model(|m| m.objs[id as usize].addr = addr);
@@ -498,6 +580,37 @@ fn run_ops(t: usize, ops: &[Value], shared: &'static Shared, held: &mut Vec<H>, 
                     }
                 }
             }
+            "nest" => {
+                // move one held handle into the payload of another object
+                // (never closing a cycle: a cycle is a leak of the workload's own making)
+                if held.len() >= 2 {
+                    let j = a % held.len();
+                    let c = held.swap_remove(j);
+                    let start = b % held.len();
+                    let k = (0..held.len())
+                        .map(|i| (start + i) % held.len())
+                        .find(|&i| {
+                            let (pid, cid) = (held[i].id, c.id);
+                            !model(|m| m.reaches(cid, pid)) && held[i].with_child(|s| s.is_none())
+                        });
+                    let mut c = Some(c);
+                    if let Some(k) = k {
+                        let (pid, cid) = (held[k].id, c.as_ref().unwrap().id);
+                        held[k].with_child(|s| {
+                            if s.is_none() {
+                                *s = c.take();
+                                model(|m| {
+                                    m.nested.insert(pid, cid);
+                                });
+                            }
+                        });
+                    }
+                    match c {
+                        None => report::probe("handle-nested"),
+                        Some(c) => held.push(c),
+                    }
+                }
+            }
             "count" => {
                 if let Some(k) = pick(held) {
                     let _ = BiasedRc::strong_count(&held[k]);
@@ -587,6 +700,7 @@ impl Scenario for C05 {
             steel_rc::register_thread();
         }
         MERGING.store(false, Ordering::SeqCst);
+        MERGE_OWNER.store(usize::MAX, Ordering::SeqCst);
         let spawn_at: Vec<usize> = workload["spawn_at"]
             .as_array()
             .map(|a| a.iter().map(|x| x.as_u64().unwrap_or(0) as usize).collect())
@@ -660,8 +774,14 @@ impl Scenario for C05 {
                     nontrivial = true;
                 }
             }
+            let root_leak = m.objs.iter().any(|o| o.dropped == 0 && o.count == 0);
             for (id, o) in m.objs.iter().enumerate() {
                 if o.dropped == 0 {
+                    if o.count > 0 && root_leak {
+                        // its remaining handle sits in the payload of an object that
+                        // was itself never destroyed: a consequence, not a second leak
+                        continue;
+                    }
                     let owner_exit = m.exit_step.get(&o.creator).copied();
                     let class = match owner_exit {
                         Some(e) if o.creator != 0 && e <= o.last_drop_end_step => "owner-exited-before-last-drop",
@@ -718,7 +838,7 @@ impl Scenario for C05 {
     }
 
     fn rule(&self) -> String {
-        "each evaluation = one forked run of 2-4 real threads executing a seeded program of 4-12 operations each (new/clone/drop/move/clone-and-move/receive/read/get_mut/make_mut/try_unwrap/strong_count/explicit merge/thread exit) on 1-2 BiasedRc objects, with a scheduling decision before every count-word access; non-trivial = at least two threads touched the count word of one object; distinct = distinct (workload, event trace) fingerprints".into()
+        "each evaluation = one forked run of 2-4 real threads executing a seeded program of 4-12 operations each (new/clone/drop/move/clone-and-move/receive/read/get_mut/make_mut/try_unwrap/strong_count/explicit merge/nest a handle inside the payload of another object/thread exit) on 1-3 BiasedRc objects (destroying an object drops the handle nested in it, also when the destruction happens inside a merge), with a scheduling decision before every count-word access; non-trivial = at least two threads touched the count word of one object; distinct = distinct (workload, event trace) fingerprints".into()
     }
     fn assumptions(&self) -> Vec<String> {
         vec![
